@@ -26,7 +26,9 @@
 (***************************************************************************)
 EXTENDS Integers, Sequences, FiniteSets
 
-CONSTANT Proc            \* identities of the calling goroutines
+CONSTANT Proc,           \* identities of the calling goroutines
+         WakeOnPut       \* TRUE: every put ends with a broadcast (the design);
+                         \* FALSE: the design WITHOUT the broadcast (refuted by MC_ReqQueue_nobcast.cfg)
 
 Lanes == {1, 2}
 Nil == <<>>
@@ -146,7 +148,7 @@ Invoke(p, o) ==
 Finish(p, r) == /\ pc' = [pc EXCEPT ![p] = "idle"]
                 /\ ret' = [ret EXCEPT ![p] = r]
 
-Broadcast == waiting' = {}
+Broadcast == IF WakeOnPut THEN waiting' = {} ELSE UNCHANGED waiting
 
 PutStep(p) ==
   /\ pc[p] = "put"
